@@ -133,7 +133,19 @@
      "lookups through a borrowed form ... answer exactly like lookups by the
       key"                                                 C01_borrowed_same
         (two queries of the same class: get, get_key_value, get_mut,
-         contains_key, remove, remove_entry give the same answer)
+         contains_key, remove, remove_entry give the same answer;
+         Index / IndexMut: C01_borrowed_same_index)
+        a query q against a KEY k with cq q = ck k, every lookup entry point
+         (get, get_mut, get_key_value, contains_key, Index, IndexMut, remove,
+         remove_entry)                               C01_borrowed_as_key,
+                                                     C01_borrowed_as_key_all
+     the observers as operations of the model        C01_abs_len_op, C01_abs_is_empty_op,
+        C01_get_abs, C01_get_deref_abs; after any history from Map::new()
+                                                     C01_observers_after_history
+     retain with a STATEFUL (order-dependent, possibly panicking) predicate
+                                                     C01_retain_stateful, C01_l_retain_st_once,
+                                                     C01_l_retain_st_pure, C01_retain_stateful_abs
+        (see the AUDIT ADDENDUM at the end of this file)
      "indexing panics exactly when the key is absent"      C01_index_panics_iff_absent,
                                                            C01_index_mut_panics_iff_absent
      "debug and release builds": [debug : bool] is universally quantified.
@@ -150,8 +162,11 @@
        checker forbids it), DIterAll iterates to the end, the entry API is
        represented by or_insert only (the other entry methods: C11), and
        DExtend's source iterator does not panic (C04);
-     - DRetain takes a pure, non-panicking closure K -> V -> bool * V
-       (panicking closures are property C04's business);
+     - DRetain (the constructor used in HISTORIES) takes a pure, non-panicking
+       closure K -> V -> bool * V.  A single retain call with a stateful FnMut
+       predicate (answers depending on the visit order, value rewritten, panic
+       allowed) is covered by C01_retain_stateful / C01_retain_stateful_abs; what a
+       panicking closure leaves behind in general environments is property C04;
      - Lawful has no clause for Clone / eqV: no operation of C01 calls them.
    ========================================================================== *)
 Require Import Model.Base Model.Slots Model.MapOps Model.Exec.
@@ -531,4 +546,289 @@ Example C01_example_vstep :
               {| v0 := []; v1 := []; u2 := []; u3 := []; c0 := 3; c1 := 3; c2 := 0; c3 := 0 |} in
   v0 vw = [(7, 71)]%N /\ v1 vw = [(7, 71); (6, 160)]%N /\
   view_x (run_final false {| sc_adv := false; sc_seed := 0; sc_fk := 0; sc_fa := 0 |} ops (init_world 3 3 0 0)) = vw.
+Proof. vm_compute. repeat split; reflexivity. Qed.
+
+(* ========================================================================== *)
+(* AUDIT ADDENDUM (Proofs/MoreDict.v): clauses of C01 that the theorems above
+   covered only on the abstraction, only for two queries of the same kind, or
+   only for a pure retain closure.                                            *)
+(* ========================================================================== *)
+Require Import Proofs.MoreDict.
+Require Import Proofs.Lawful3.
+
+(* -------------------------------------------------------------------------- *)
+(* "Lookups through a borrowed form of the key answer exactly like lookups by
+    the key itself."
+   C01_borrowed_same compares two queries q1 q2 : Q of the same class.  The
+   theorems below compare a query q with a KEY k : K.
+     cq q = ck k     q is a borrowed form of k (k.borrow() == q under a lawful
+                     Borrow/Eq: same equality class);
+     find_idx ck (ck k) (Spec.elems (self w))
+                     the slot that holds the stored key equal to k - the slot
+                     the KEY-typed operations (insert k, insert_key_value k,
+                     entry(k): Spec.l_insert scans for the class ck k) hit;
+     l_remove ck l (ck k)   the list machine's removal of the key k.
+   A key type without a distinct borrowed form is the instance Q := K, cq := ck
+   (the quantifier's "key types with and without a distinct borrowed form").   *)
+Theorem C01_borrowed_as_key :
+  forall (K V Q T : Type) (E : env K V Q T) (ck : K -> N) (cq : Q -> N),
+  Lawful E ck cq ->
+  forall (q : Q) (k : K) (w : world K V T),
+  WF (self w) ->
+  cq q = ck k ->
+  exists w1 : world K V T,
+    get E q w = Ok (find_idx ck (ck k) (Spec.elems (self w))) w1 /\ stable w w1.
+Proof. exact (@borrowed_as_key). Qed.
+Print Assumptions C01_borrowed_as_key.
+
+(* every lookup entry point of the property: get, get_mut, get_key_value,
+   contains_key, Index, IndexMut (return the slot / panic exactly when k's class
+   is absent), remove, remove_entry (result and remaining entries are those of
+   removing k) *)
+Theorem C01_borrowed_as_key_all :
+  forall (K V Q T : Type) (E : env K V Q T) (debug : bool) (ck : K -> N) (cq : Q -> N),
+  Lawful E ck cq ->
+  forall (q : Q) (k : K) (w : world K V T),
+  WF (self w) ->
+  cq q = ck k ->
+  let r := find_idx ck (ck k) (Spec.elems (self w)) in
+  (exists w1 : world K V T, get E q w = Ok r w1 /\ stable w w1) /\
+  (exists w1 : world K V T, get_mut E q w = Ok r w1 /\ stable w w1) /\
+  (exists w1 : world K V T, get_key_value E q w = Ok r w1 /\ stable w w1) /\
+  (exists w1 : world K V T,
+     contains_key E q w = Ok (match r with Some _ => true | None => false end) w1 /\
+     stable w w1) /\
+  (exists w1 : world K V T,
+     stable w w1 /\ index E q w = match r with Some i => Ok i w1 | None => Panic w1 end) /\
+  (exists w1 : world K V T,
+     stable w w1 /\ index_mut E q w = match r with Some i => Ok i w1 | None => Panic w1 end) /\
+  (exists w1 : world K V T,
+     remove E debug q w =
+       Ok (option_map snd (snd (l_remove ck (Spec.elems (self w)) (ck k)))) w1 /\
+     WF (self w1) /\ cap (self w1) = cap (self w) /\
+     Spec.elems (self w1) = fst (l_remove ck (Spec.elems (self w)) (ck k))) /\
+  (exists w1 : world K V T,
+     remove_entry E debug q w = Ok (snd (l_remove ck (Spec.elems (self w)) (ck k))) w1 /\
+     WF (self w1) /\ cap (self w1) = cap (self w) /\
+     Spec.elems (self w1) = fst (l_remove ck (Spec.elems (self w)) (ck k)) /\
+     log w1 = log w).
+Proof. exact (@borrowed_as_key_all). Qed.
+Print Assumptions C01_borrowed_as_key_all.
+
+(* the Index / IndexMut conjuncts missing from C01_borrowed_same: two borrowed
+   forms of the same class index the same slot, or both panic *)
+Theorem C01_borrowed_same_index :
+  forall (K V Q T : Type) (E : env K V Q T) (ck : K -> N) (cq : Q -> N),
+  Lawful E ck cq ->
+  forall (q1 q2 : Q) (w : world K V T),
+  WF (self w) ->
+  cq q1 = cq q2 ->
+  (exists w1 w2 : world K V T, stable w w1 /\ stable w w2 /\
+     match find_idx ck (cq q1) (Spec.elems (self w)) with
+     | Some i => index E q1 w = Ok i w1 /\ index E q2 w = Ok i w2
+     | None => index E q1 w = Panic w1 /\ index E q2 w = Panic w2
+     end) /\
+  (exists w1 w2 : world K V T, stable w w1 /\ stable w w2 /\
+     match find_idx ck (cq q1) (Spec.elems (self w)) with
+     | Some i => index_mut E q1 w = Ok i w1 /\ index_mut E q2 w = Ok i w2
+     | None => index_mut E q1 w = Panic w1 /\ index_mut E q2 w = Panic w2
+     end).
+Proof. exact (@borrowed_same_index). Qed.
+Print Assumptions C01_borrowed_same_index.
+
+(* non-vacuity: in m3 the query QCls 6 is a borrowed form of the key object
+   k_ 99 6 (a different object of the class stored in slot 1); QKey is the
+   "no distinct borrowed form" query *)
+Example C01_example_borrowed :
+  qcls (QCls 6) = kcls (k_ 99 6) /\ qcls (QKey (k_ 99 6)) = kcls (k_ 99 6) /\
+  find_idx kcls (kcls (k_ 99 6)) (Spec.elems m3) = Some 1 /\
+  match get (env_map {| sc_adv := false; sc_seed := 0; sc_fk := 0; sc_fa := 0 |}) (QCls 6) (w_of m3),
+        get (env_map {| sc_adv := false; sc_seed := 0; sc_fk := 0; sc_fa := 0 |}) (QKey (k_ 99 6)) (w_of m3) with
+  | Ok r1 _, Ok r2 _ => r1 = Some 1 /\ r2 = Some 1
+  | _, _ => False
+  end.
+Proof. vm_compute. repeat split; reflexivity. Qed.
+
+(* -------------------------------------------------------------------------- *)
+(* "the set of key-to-value associations observable afterwards through len,
+    lookups and iteration": the observers as OPERATIONS of the model (C01_abs_len
+   etc. state them on the abstraction).
+     length_ / is_empty / capacity   Map::len / is_empty / capacity (MapOps.v);
+     get_deref E q   := get E q, then dereference the returned reference
+                        (MoreDict.v): Option<(&K,&V)> as a value.              *)
+Theorem C01_abs_len_op :
+  forall (K V T : Type) (ck : K -> N) (w : world K V T) (d : @dict K V),
+  Abs ck (self w) d -> length_ w = Ok (length d) w.
+Proof. exact (@abs_len_op). Qed.
+Print Assumptions C01_abs_len_op.
+
+Theorem C01_abs_is_empty_op :
+  forall (K V T : Type) (ck : K -> N) (w : world K V T) (d : @dict K V),
+  Abs ck (self w) d ->
+  is_empty w = Ok (match d with [] => true | _ :: _ => false end) w.
+Proof. exact (@abs_is_empty_op). Qed.
+Print Assumptions C01_abs_is_empty_op.
+
+(* get on a container that represents d returns the slot holding exactly the
+   association the ideal dictionary finds (None iff it finds none) *)
+Theorem C01_get_abs :
+  forall (K V Q T : Type) (E : env K V Q T) (ck : K -> N) (cq : Q -> N),
+  Lawful E ck cq ->
+  forall (q : Q) (w : world K V T) (d : @dict K V),
+  Abs ck (self w) d ->
+  wp (get E q)
+    (fun (r : option nat) (w' : world K V T) =>
+       stable w w' /\
+       match r with
+       | Some i => exists p : K * V,
+                     nth_error (Spec.elems (self w)) i = Some p /\ d_find ck d (cq q) = Some p
+       | None => d_find ck d (cq q) = None
+       end)
+    (fun _ : world K V T => False) w.
+Proof. exact (@get_abs). Qed.
+Print Assumptions C01_get_abs.
+
+Theorem C01_get_deref_abs :
+  forall (K V Q T : Type) (E : env K V Q T) (ck : K -> N) (cq : Q -> N),
+  Lawful E ck cq ->
+  forall (q : Q) (w : world K V T) (d : @dict K V),
+  Abs ck (self w) d ->
+  wp (get_deref E q)
+    (fun (r : option (K * V)) (w' : world K V T) => stable w w' /\ r = d_find ck d (cq q))
+    (fun _ : world K V T => False) w.
+Proof. exact (@get_deref_abs). Qed.
+Print Assumptions C01_get_deref_abs.
+
+(* after ANY history from Map::new() of ANY capacity: len(), is_empty(),
+   capacity() and get(q), run on the final world, answer what the ideal dictionary
+   after the same history answers; its size never exceeds the capacity *)
+Theorem C01_observers_after_history :
+  forall (K V Q T : Type) (E : env K V Q T) (debug : bool) (ck : K -> N) (cq : Q -> N),
+  Lawful E ck cq ->
+  forall (n : nat) (ops : list (@dop K V Q)) (s : T) (lg : list event),
+  exists wf : world K V T,
+    mfinal E debug ops {| cb := s; log := lg; self := new_map n |} = Some wf /\
+    let d := dfinal ck cq n ops [] in
+    length_ wf = Ok (length d) wf /\
+    is_empty wf = Ok (match d with [] => true | _ :: _ => false end) wf /\
+    capacity wf = Ok n wf /\
+    length d <= n /\
+    forall q : Q,
+      wp (get_deref E q)
+        (fun (r : option (K * V)) (w' : world K V T) => stable wf w' /\ r = d_find ck d (cq q))
+        (fun _ : world K V T => False) wf.
+Proof. exact (@observers_after_history). Qed.
+Print Assumptions C01_observers_after_history.
+
+(* -------------------------------------------------------------------------- *)
+(* retain with a STATEFUL FnMut predicate (DRetain above takes a pure closure).
+   f : pred_t = T -> K -> V -> (option bool * V) * T reads and updates the callback
+   state, so its answers may depend on the ORDER of the visits; it may rewrite
+   the value; answer None = it panics.  Definitions (Proofs/MoreDict.v):
+     rcall := K * V * option bool * V   one call: key and value passed, answer,
+                                        value left in the slot;
+     rc_arg c  the (key, value) passed;   rc_ans c  the answer;
+     rc_kept c := [(key, value left)] if the answer is Some true, else [];
+     rc_events E c := EvCall 0 :: (ev_drops of the entry if the answer is Some false);
+     l_retain_st E f fuel i s l : rt_out   THE TRAVERSAL SPECIFICATION, quoted:
+       match nth_error l i with None => stop | Some (k, v) =>
+         let '((r, v'), s1) := f s k v in let l1 := upd l i (k, v') in
+         match r with
+         | None       => record the call; stop with rt_ok = false, list l1, state s1
+         | Some true  => record; continue at S i with s1, l1
+         | Some false => record; continue at i with the state after dropK k, dropV v'
+                         and swap_remove l1 i      (the last entry is visited next)
+       rt_list / rt_cb / rt_log / rt_calls / rt_ok : final entries, callback state,
+       events, the calls in call order, "no call panicked";
+     rt_post o w ok w' := rt_ok o = ok /\ WF (self w') /\ cap (self w') = cap (self w) /\
+                          Spec.elems (self w') = rt_list o /\ cb w' = rt_cb o /\
+                          log w' = log w ++ rt_log o.                            *)
+Theorem C01_retain_stateful :
+  forall (K V Q T : Type) (E : env K V Q T) (debug : bool) (ck : K -> N) (cq : Q -> N),
+  Lawful E ck cq ->
+  forall (f : @pred_t K V T) (w : world K V T),
+  WF (self w) ->
+  wp (retain E debug f)
+    (fun (_ : unit) (w' : world K V T) =>
+       rt_post (l_retain_st E f (length (Spec.elems (self w))) 0 (cb w) (Spec.elems (self w)))
+               w true w')
+    (fun w' : world K V T =>
+       rt_post (l_retain_st E f (length (Spec.elems (self w))) 0 (cb w) (Spec.elems (self w)))
+               w false w')
+    w.
+Proof. exact (@retain_stateful). Qed.
+Print Assumptions C01_retain_stateful.
+
+(* what the traversal specification does (pure): the log is one EvCall per
+   recorded call, in call order (plus the destruction of rejected entries); if no
+   call panicked, the predicate was called EXACTLY ONCE on every entry (the
+   arguments are a permutation of the entries, as many calls as entries) and the
+   result is exactly the entries whose answer - the one actually given at that
+   point of the traversal - was true, with the value the predicate left *)
+Theorem C01_l_retain_st_once :
+  forall (K V Q T : Type) (E : env K V Q T) (f : @pred_t K V T) (s : T) (l : list (K * V)),
+  let o := l_retain_st E f (length l) 0 s l in
+  rt_log o = flat_map (rc_events E) (rt_calls o) /\
+  (rt_ok o = true ->
+   Permutation (List.map (@rc_arg K V) (rt_calls o)) l /\
+   length (rt_calls o) = length l /\
+   Permutation (rt_list o) (flat_map (@rc_kept K V) (rt_calls o))).
+Proof. exact (@l_retain_st_once). Qed.
+Print Assumptions C01_l_retain_st_once.
+
+(* for a state-independent, non-panicking predicate the stateful specification
+   IS Lawful3.l_retain, the specification behind DRetain *)
+Theorem C01_l_retain_st_pure :
+  forall (K V Q T : Type) (E : env K V Q T) (f : @pred_t K V T) (g : K -> V -> bool * V),
+  (forall (s : T) (k : K) (v : V), fst (f s k v) = (Some (fst (g k v)), snd (g k v))) ->
+  forall (fuel i : nat) (s : T) (l : list (K * V)),
+  rt_list (l_retain_st E f fuel i s l) = l_retain g fuel i l /\
+  rt_ok (l_retain_st E f fuel i s l) = true.
+Proof. exact (@l_retain_st_pure). Qed.
+Print Assumptions C01_l_retain_st_pure.
+
+(* dictionary level: on a container that represents d, retain(f) with a stateful
+   predicate that does not panic calls f exactly once on every association of d
+   and leaves a container representing the associations it answered true for;
+   if a call panics the container stays well-formed with the entries reached *)
+Theorem C01_retain_stateful_abs :
+  forall (K V Q T : Type) (E : env K V Q T) (debug : bool) (ck : K -> N) (cq : Q -> N),
+  Lawful E ck cq ->
+  forall (f : @pred_t K V T) (w : world K V T) (d : @dict K V),
+  Abs ck (self w) d ->
+  let o := l_retain_st E f (length (Spec.elems (self w))) 0 (cb w) (Spec.elems (self w)) in
+  wp (retain E debug f)
+    (fun (_ : unit) (w' : world K V T) =>
+       Permutation (List.map (@rc_arg K V) (rt_calls o)) d /\
+       Abs ck (self w') (flat_map (@rc_kept K V) (rt_calls o)) /\
+       cap (self w') = cap (self w) /\
+       cb w' = rt_cb o /\
+       log w' = log w ++ flat_map (rc_events E) (rt_calls o))
+    (fun w' : world K V T => rt_post o w false w')
+    w.
+Proof. exact (@retain_stateful_abs). Qed.
+Print Assumptions C01_retain_stateful_abs.
+
+(* non-vacuity: a predicate whose answer depends on HOW MANY calls came before
+   (keep on even call numbers) and that writes the call number into the value.
+   On m3 (classes 5,6,7): slot 0 kept (call 0), slot 1 = class 6 rejected (call 1),
+   class 7 moves into slot 1 and is visited by call 2: kept.  A pure predicate
+   could not keep 5 and 7 by position; the model agrees with the specification. *)
+Definition C01_alt_pred : @pred_t key vobj cstate :=
+  fun s k v =>
+    ((Some (N.even (n_call s)), {| vid := vid v; vdat := n_call s |}),
+     {| n_eq := n_eq s; n_clone := n_clone s; n_call := n_call s + 1; next_id := next_id s |}).
+
+Example C01_example_retain_stateful :
+  let E := env_map {| sc_adv := false; sc_seed := 0; sc_fk := 0; sc_fa := 0 |} in
+  let o := l_retain_st E C01_alt_pred 3 0 cs0 (Spec.elems m3) in
+  rt_ok o = true /\
+  rt_list o = [(k_ 1 5, v_ 2 0); (k_ 5 7, v_ 6 2)] /\
+  List.map (@rc_arg key vobj) (rt_calls o) = [(k_ 1 5, v_ 2 7); (k_ 3 6, v_ 4 8); (k_ 5 7, v_ 6 9)] /\
+  List.map (@rc_ans key vobj) (rt_calls o) = [Some true; Some false; Some true] /\
+  rt_log o = [EvCall 0; EvCall 0; EvDrop 3; EvDrop 4; EvCall 0] /\
+  match retain E false C01_alt_pred (w_of m3) with
+  | Ok _ w' => Spec.elems (self w') = rt_list o /\ log w' = rt_log o /\ cb w' = rt_cb o
+  | _ => False
+  end.
 Proof. vm_compute. repeat split; reflexivity. Qed.
